@@ -10,6 +10,8 @@ CONSTANTS
   Weak_HandshakeAcceptsAppAhead = FALSE
   Weak_EmptyStoreAcceptsAppAhead = FALSE
   Weak_NoInitialHeightBase = FALSE
+  Weak_ReplayDropsParamUpdates = FALSE
+  Weak_CrashCopyDropsValUpdates = FALSE
 INIT Init
 NEXT Next
 CHECK_DEADLOCK FALSE
